@@ -155,7 +155,7 @@ func makeCfg(prof string, r *rng) WorldCfg {
 			c.Dev.Types[r.intn(len(c.Dev.Types))].Flags |= simvk.PropDeviceCoherent
 		}
 		return c
-	case "core", "core2", "core3", "core4":
+	case "core", "core2", "core3", "core4", "core5":
 		return coreCfg(prof, r)
 	}
 	return baseCfg(r, 3, 6, typePalette[:7])
@@ -195,6 +195,10 @@ func newGenerator(prof string, r *rng, maxOps int) *generator {
 		g.weights = []wop{{"alloc", 12}, {"palloc", 14}, {"allocm", 8}, {"free", 20}, {"rw", 5}, {"map", 3}, {"unmap", 3}, {"mkpool", 3},
 			{"rmpool", 1}, {"defragc", 24}, {"cbuf", 6}, {"cimg", 6}, {"dres", 8}, {"rawres", 3}, {"ares", 3}, {"bind", 3}, {"rdres", 2},
 			{"allocn", 2}, {"freen", 1}, {"stats", 1}, {"fault", 3}, {"flush", 2}}
+	case "core5": // defragmentation on devices with bufferImageGranularity > 1: buffers, linear and optimal images share the blocks
+		g.weights = []wop{{"alloc", 8}, {"palloc", 8}, {"allocm", 4}, {"free", 18}, {"rw", 4}, {"map", 2}, {"unmap", 2}, {"mkpool", 3},
+			{"rmpool", 1}, {"defragc", 28}, {"cbuf", 16}, {"cimg", 18}, {"dres", 12}, {"rawres", 3}, {"ares", 5}, {"bind", 3}, {"rdres", 2},
+			{"allocn", 2}, {"freen", 1}, {"stats", 1}, {"fault", 2}, {"flush", 1}}
 	default:
 		g.prof = "basic"
 		g.weights = []wop{{"alloc", 40}, {"free", 30}}
@@ -737,7 +741,7 @@ func (g *generator) next(w *World) (Op, bool) {
 	}
 	// a pass in progress is driven to its end with high priority
 	if d := g.activeDefrag(w); d >= 0 && (w.defrag[d].inPass && g.r.chance(85) || g.r.chance(55)) {
-		if g.prof == "core4" && !w.defrag[d].inPass && w.pendingFault == nil && g.r.chance(35) {
+		if (g.prof == "core4" && g.r.chance(35) || g.prof == "core5" && g.r.chance(10)) && !w.defrag[d].inPass && w.pendingFault == nil {
 			// arm a vkMapMemory fault for the next BeginDefragPass: the commit of a move of a persistently mapped
 			// allocation into a block that is not mapped fails, and the planner goes on
 			k := g.r.pick(1, 1, 1, 2, 3)
@@ -747,7 +751,7 @@ func (g *generator) next(w *World) (Op, bool) {
 			}
 			return mkOp("fault", g.r.pick(2, 2, -1), k, simvk.ResMemoryMapFailed, sticky), true
 		}
-		if g.prof == "core3" || g.prof == "core4" {
+		if g.prof == "core3" || g.prof == "core4" || g.prof == "core5" {
 			return g.genDefragCore(w)
 		}
 		return g.genDefrag(w)
@@ -765,7 +769,7 @@ func (g *generator) next(w *World) (Op, bool) {
 			return g.next(w)
 		}
 	}
-	if (g.prof == "core3" || g.prof == "core4") && g.emitted < 3 && g.r.chance(50) {
+	if (g.prof == "core3" || g.prof == "core4" || g.prof == "core5") && g.emitted < 3 && g.r.chance(50) {
 		g.script = g.defragPreamble(w)
 		if len(g.script) > 0 {
 			return g.next(w)
@@ -778,13 +782,13 @@ func (g *generator) next(w *World) (Op, bool) {
 			return g.next(w)
 		}
 	}
-	if w.pendingFault != nil && g.activeDefrag(w) >= 0 && g.prof == "core4" && g.r.chance(70) {
+	if w.pendingFault != nil && g.activeDefrag(w) >= 0 && (g.prof == "core4" || g.prof == "core5") && g.r.chance(70) {
 		// the armed fault is meant for the next pass
 		if op, ok := g.genDefragCore(w); ok {
 			return op, true
 		}
 	}
-	if w.pendingFault != nil && (g.prof == "core" || g.prof == "core2" || g.prof == "core3" || g.prof == "core4") && g.r.chance(75) {
+	if w.pendingFault != nil && (g.prof == "core" || g.prof == "core2" || g.prof == "core3" || g.prof == "core4" || g.prof == "core5") && g.r.chance(75) {
 		// an armed fault is wasted on an op that makes no driver call: prefer ops that do
 		names := []string{"lalloc", "allocm", "map", "rw", "mkpoolt", "lalloc", "allocn", "cbuf"}
 		if g.prof == "core" {
@@ -892,6 +896,7 @@ func (g *generator) defragPreamble(w *World) []Op {
 	}
 	flags := 0
 	hv := w.typeFlags(t)&simvk.PropHostVisible != 0
+	preKind := map[int]int{} // core5: 1 = buffer, 2 = image created by the preamble in slot i (resource i)
 	for i := 0; i < n; i++ {
 		f := flags
 		mp := 15
@@ -909,6 +914,21 @@ func (g *generator) defragPreamble(w *World) []Op {
 		if pool < 0 {
 			tb = 1 << uint(t)
 		}
+		if g.prof == "core5" && i < maxRes && r.chance(65) {
+			// buffers, linear and optimal images next to each other: the granularity bookkeeping decides where they may go
+			ptb := tb
+			if pool >= 0 {
+				ptb = 1 << uint(t)
+			}
+			if r.chance(45) {
+				ops = append(ops, mkOp("cbuf", i, i, sz, pow2(r, 0, 6), ptb, 0, 0, r.pick(0, 1, 2, 0x10, 0x80), uUnknown, f&^fMapped, 0, 0, 0, pool, 0))
+				preKind[i] = 1
+			} else {
+				ops = append(ops, mkOp("cimg", i, i, r.pick(0, 0, 1), sz, pow2(r, 0, 6), ptb, 0, 0, r.pick(0, 1, 2, 0x10, 0x80), uUnknown, f&^fMapped, 0, 0, 0, pool))
+				preKind[i] = 2
+			}
+			continue
+		}
 		ops = append(ops, mkOp("alloc", i, sz, pow2(r, 0, 6), tb, 0, f, 0, 0, 0, pool))
 		if hv && r.chance(50) {
 			g.nextVer++
@@ -917,6 +937,14 @@ func (g *generator) defragPreamble(w *World) []Op {
 	}
 	for i := 0; i < n; i++ {
 		if r.chance(50) {
+			if preKind[i] == 1 {
+				ops = append(ops, mkOp("dbuf", i, i))
+				continue
+			}
+			if preKind[i] == 2 {
+				ops = append(ops, mkOp("dimg", i, i))
+				continue
+			}
 			ops = append(ops, mkOp("free", i))
 		}
 	}
@@ -1263,6 +1291,9 @@ func coreCfg(prof string, r *rng) WorldCfg {
 	}
 	if prof == "core3" || prof == "core4" {
 		c.Dev.Granularity = r.pick(1, 1, 16, 64, 256, 512, 1024, 4096)
+	}
+	if prof == "core5" {
+		c.Dev.Granularity = r.pick(16, 64, 1024, 4096)
 	}
 	if prof != "core" && r.chance(75) {
 		c.Dev.API = r.pick(11, 12)
